@@ -157,10 +157,10 @@ func implClientFor(g clientsets.ClientSets, name string) string {
 	return res
 }
 
-func runGateway(c *rig.Ctx, cs Case, m mode) bool {
-	ok := true
+func runGateway(c *rig.Ctx, cs Case, m mode) int {
+	var v verdict
 	fail := func(kind, class, what string, impl, model interface{}) {
-		ok = false
+		v.note(kind)
 		if m.record {
 			c.Fail(rig.Failure{Kind: kind, Class: class, What: what, Case: cs, Impl: impl, Model: model})
 		}
@@ -190,7 +190,7 @@ func runGateway(c *rig.Ctx, cs Case, m mode) bool {
 	}
 	if err := c.Model("C13.gateway", mcase, &mod); err != nil {
 		fail("diff", "c13.model-error", "model error "+err.Error(), nil, nil)
-		return false
+		return v.sev
 	}
 
 	ts := world()
@@ -201,7 +201,7 @@ func runGateway(c *rig.Ctx, cs Case, m mode) bool {
 		srv, err = newEnv("http://me.verif:1", int(cs.Sync.N), "local", nil)
 		if err != nil {
 			fail("diff", "c13.harness", "cannot build a rate limiter: "+err.Error(), nil, nil)
-			return false
+			return v.sev
 		}
 		for _, e := range cs.Sync.Leaders {
 			elector.VerifC13SetLeader(srv.le, int(e.S), rig.UnHex(e.L))
@@ -209,7 +209,7 @@ func runGateway(c *rig.Ctx, cs Case, m mode) bool {
 		info, err := srv.rl.ServerInfo()
 		if err != nil {
 			fail("diff", "c13.harness", "ServerInfo: "+err.Error(), nil, nil)
-			return false
+			return v.sev
 		}
 		b, _ := json.Marshal(info)
 		worldMu.Lock()
@@ -218,16 +218,6 @@ func runGateway(c *rig.Ctx, cs Case, m mode) bool {
 		clientsets.VerifC13Sync(g)
 	}
 	count, leaders, lkeys := clientsets.VerifC13State(g)
-	if int64(count) != mod.ShardCount {
-		fail("diff", "c13.gw-count", fmt.Sprintf("gateway shardCount after sync: model %d, code %d", mod.ShardCount, count), count, mod.ShardCount)
-	}
-	var implEps []EP
-	for _, k := range lkeys {
-		implEps = append(implEps, EP{int64(k), rig.Hex(leaders[k])})
-	}
-	if rig.Canon(implEps) != rig.Canon(mod.Endpoints) && !(len(implEps) == 0 && len(mod.Endpoints) == 0) {
-		fail("diff", "c13.gw-endpoints", fmt.Sprintf("gateway leaderEndpoints: model %s, code %s", rig.Canon(mod.Endpoints), rig.Canon(implEps)), implEps, mod.Endpoints)
-	}
 	var srvLeaders map[int]string
 	if srv != nil {
 		srvLeaders = map[int]string{}
@@ -293,6 +283,16 @@ func runGateway(c *rig.Ctx, cs Case, m mode) bool {
 			}
 		}
 	}
+	if int64(count) != mod.ShardCount {
+		fail("diff", "c13.gw-count", fmt.Sprintf("gateway shardCount after sync: model %d, code %d", mod.ShardCount, count), count, mod.ShardCount)
+	}
+	var implEps []EP
+	for _, k := range lkeys {
+		implEps = append(implEps, EP{int64(k), rig.Hex(leaders[k])})
+	}
+	if rig.Canon(implEps) != rig.Canon(mod.Endpoints) && !(len(implEps) == 0 && len(mod.Endpoints) == 0) {
+		fail("diff", "c13.gw-endpoints", fmt.Sprintf("gateway leaderEndpoints: model %s, code %s", rig.Canon(mod.Endpoints), rig.Canon(implEps)), implEps, mod.Endpoints)
+	}
 	_ = limitutil.GetShardID
-	return ok
+	return v.sev
 }
